@@ -137,6 +137,32 @@ def builder_result_triple(repo: Repo, builder: FuncInfo, triples: List[Triple]) 
   return None
 
 
+def _self_attr_class(repo: Repo, ff: FuncFlow, e: ast.Attribute) -> Optional[ClassInfo]:
+  if not (isinstance(e.value, ast.Name) and e.value.id == 'self'):
+    return None
+  cls_scope = ff.fi.scope.parent
+  if cls_scope is None or cls_scope.kind != 'class':
+    return None
+  ci = cls_scope.module.classes_by_node.get(cls_scope.node)
+  init = repo.find_method(ci, '__init__') if ci else None
+  if init is None:
+    return None
+  for st in ast.walk(init.node):
+    if isinstance(st, ast.Assign) and len(st.targets) == 1 and isinstance(st.targets[0], ast.Attribute) and st.targets[0].attr == e.attr:
+      v = st.value
+      if isinstance(v, ast.Call):
+        r = repo.resolve(init.scope, v.func)
+        if r.kind == 'class':
+          return r.cls
+      if isinstance(v, ast.Name):
+        ann = init.param_annotation(v.id)
+        if ann is not None:
+          r = repo.resolve(init.scope, ann)
+          if r.kind == 'class':
+            return r.cls
+  return None
+
+
 def triple_for_callee(repo: Repo, ff: FuncFlow, call: ast.Call, triples: List[Triple]) -> Optional[Triple]:
   """Resolves `train_for_each_client(shared, clients)` to its triple, where
   train_for_each_client = create_train_for_each_client(...) in an enclosing scope."""
@@ -166,6 +192,9 @@ def triple_for_callee(repo: Repo, ff: FuncFlow, call: ast.Call, triples: List[Tr
     elif r.kind == 'func' and r.base is not None and r.base.kind == 'class':
       # a method that forwards to the generator: `yield from self._train_each_client(...)`
       ci = r.base.cls
+    elif r.kind == 'attr' and r.base is not None and r.base.kind == 'attr' and isinstance(f.value, ast.Attribute):
+      # self._x.method(...): type of self._x from `self._x = Ctor(...)` / annotated parameter in __init__
+      ci = _self_attr_class(repo, ff, f.value)
     elif r.kind == 'attr' and r.base is not None and r.base.kind == 'param':
       # receiver typed by its annotation
       sc = r.base.scope
